@@ -13,6 +13,12 @@ from genlm.grammar.wfsa.base import EPSILON
 LIM = 2**30
 
 
+class NonFinite(ArithmeticError):
+    """The code returned NaN or an infinity as a weight: an observation (a wrong answer on the in-domain inputs the
+    drivers generate), not a failure of the machinery."""
+
+
+
 def frac(x):
     if isinstance(x, bool):
         return Fraction(int(x))
@@ -21,7 +27,7 @@ def frac(x):
     if isinstance(x, float) or hasattr(x, "dtype"):
         x = float(x)
         if math.isnan(x) or math.isinf(x):
-            raise MachineryError(f"non-finite weight {x}")
+            raise NonFinite(f"non-finite weight {x}")
         return Fraction(x)
     raise MachineryError(f"cannot encode weight {x!r} ({type(x).__name__})")
 
@@ -50,6 +56,8 @@ def enc_w(R, w):
         return int(bool(w.score))
     if name in ("Sat2", "Sat3"):
         return int(w.score)
+    if name == "BM2":
+        return list(w.score)
     if name == "Rat":
         return enc_rat(w if R is Float else w.score)
     if name == "MaxTimes":
